@@ -10,6 +10,7 @@ derivatives and the fsm table) and cross-checks its own verdicts with Python's `
 import itertools
 import json
 import os
+import zlib
 import re as pyre
 
 from framework import Suite
@@ -22,19 +23,24 @@ E_ACUTE, E_CIRC, EURO, KIP, ARROW = 0xE9, 0xEA, 0x20AC, 0x20AD, 0x2192
 # expression trees:  ["eps"] ["lit",c] ["dot"] ["cls",[..]] ["ncls",[..]] ["alt",r,s] ["cat",r,s]
 #                    ["star",r] ["plus",r] ["opt",r] ["rep",m,n,r]
 # ------------------------------------------------------------------------------------------------
+def esc(c, special):
+    ch = chr(c)
+    return "\\" + ch if ch in special else ch
+
+
 def rx_str(t):
     """concrete syntax (the same string is valid for greenery and for Python's re)"""
     k = t[0]
     if k == "eps":
         return "()"
     if k == "lit":
-        return chr(t[1])
+        return esc(t[1], "\\[]|()*+?{}.^$")
     if k == "dot":
         return "."
     if k == "cls":
-        return "[" + "".join(map(chr, t[1])) + "]"
+        return "[" + "".join(esc(c, "\\[]^-") for c in t[1]) + "]"
     if k == "ncls":
-        return "[^" + "".join(map(chr, t[1])) + "]"
+        return "[^" + "".join(esc(c, "\\[]^-") for c in t[1]) + "]"
     if k == "alt":
         return rx_str(t[1]) + "|" + rx_str(t[2])
     if k == "cat":
@@ -93,6 +99,43 @@ def rx_expanded(t):
     if k == "rep":
         return 1 + max(1, t[2]) * rx_expanded(t[3])
     return 1 + sum(rx_expanded(x) for x in t[1:] if isinstance(x, list) and x and isinstance(x[0], str))
+
+
+def rx_nullable(t):
+    k = t[0]
+    if k in ("eps", "star", "opt"):
+        return True
+    if k in ("lit", "dot", "cls", "ncls"):
+        return False
+    if k == "alt":
+        return rx_nullable(t[1]) or rx_nullable(t[2])
+    if k == "cat":
+        return rx_nullable(t[1]) and rx_nullable(t[2])
+    if k == "plus":
+        return rx_nullable(t[1])
+    return t[1] == 0 or rx_nullable(t[3])
+
+
+def has_unbounded(t):
+    return t[0] in ("plus", "star") or any(has_unbounded(x) for x in t[1:] if isinstance(x, list) and x and isinstance(x[0], str))
+
+
+def may_collapse(t):
+    """necessary for greenery's unsound multiplier merge: an unbounded repetition below a construct that
+    may match the empty string (a cheap over-approximation; the precise test follows)"""
+    k = t[0]
+    subs = [x for x in t[1:] if isinstance(x, list) and x and isinstance(x[0], str)]
+    if (k in ("opt", "star") or (k == "rep" and t[1] == 0) or (k == "alt" and rx_nullable(t))) and has_unbounded(t[-1] if k != "alt" else t):
+        return True
+    return any(may_collapse(x) for x in subs)
+
+
+def rx_fanout(t):
+    """largest product of repetition factors along a path (bounded repetition: its upper bound; + and *: 2):
+    greenery's simplification and fsm construction blow up with nested repetitions"""
+    k = t[0]
+    f = max(1, t[2]) if k == "rep" else 2 if k in ("plus", "star") else 1
+    return f * max([rx_fanout(x) for x in t[1:] if isinstance(x, list) and x and isinstance(x[0], str)] or [1])
 
 
 def utf8(cp):
@@ -337,6 +380,7 @@ class C11(Suite):
 
     def __init__(self):
         self.fsm_cache = {}
+        self.skipped_slow = 0
         self.bug_cache = {}
         self.alpha_cache = {}
         self.nfa_cache = {}
@@ -347,37 +391,53 @@ class C11(Suite):
         """the run case (rotating kind / flags / chunking) for one (expression, input) pair"""
         kind = KINDS[k % 4]
         mode = CHUNKINGS[(k // 4) % 6]
+        # the constructor flags rotate over the expressions, not over the inputs: building a machine (greenery's
+        # parse + fsm inside from_regex) costs as much as fifty runs
+        h = zlib.crc32(rx_str(tree).encode())
         case = {"op": "run", "kind": kind, "rx": tree, "w": w, "chunks": mode, "k": k % 7,
-                "term": 0 if k % 11 == 5 else 1, "greedy": (k // 2) % 2}
+                "term": 0 if h % 7 == 3 else 1, "greedy": (h // 7) % 2}
         if text is not None:
             case["kind"] = "regex_bytes" if k % 2 == 0 else "string_bytes"
             case["text"] = 1
             named = self.named(tree)
             # decode= only where the consumed bytes are whole characters (inside the theorem's hypothesis)
-            case["decode"] = 1 if k % 3 == 0 and all(ch in named or ch < 0x80 for ch in text) else 0
+            case["decode"] = 1 if (h // 14) % 2 and case["kind"] == "string_bytes" \
+                and all(ch in named or ch < 0x80 for ch in text) else 0
         if probe:
             case["probe"] = 1
         return case
 
-    def greenery_multiplier_bug(self, tree):
-        """greenery 2.x reduces `(x{p,}){0,n}` (p >= 2; also `?`, `*`) to `x*`: its bound arithmetic has
-        inf * 0 = inf, so `multiplier.canmultiplyby` wrongly allows the merge (e.g. `(aa+)?` becomes `a*`).
-        True iff the expression contains a repetition with minimum 0 applied to something greenery reduces
-        to a single `x{p,}` with p >= 2 -- exactly the shape that triggers it."""
-        key = json.dumps(tree)
+    def greenery_reduce_bug(self, tree):
+        """greenery 2.x simplifies the parsed expression (`lego.reduce`) before building the fsm, and that
+        simplification is unsound for some shapes: its bound arithmetic has inf * 0 = inf, so
+        `multiplier.canmultiplyby` lets `(x{p,}){0,n}` (p >= 2; also `?`, `*`, `|()`) collapse to `x*`
+        (`(aa+)?` becomes `a*`).  True iff the fsm of the *unsimplified* parse and the fsm the real code
+        uses differ in language (product search) - i.e. exactly when this defect class strikes; any other
+        disagreement between greenery and the expression still surfaces as a violation."""
+        key = rx_str(tree)
         r = self.bug_cache.get(key)
+        if r is None and not may_collapse(tree):
+            r = self.bug_cache[key] = False       # cheap necessary condition not met
         if r is None:
             import greenery.lego
-            r = False
-            k = tree[0]
-            if k in ("opt", "star") or (k == "rep" and tree[1] == 0):
-                p = greenery.lego.parse(rx_str(tree[-1]))
-                if isinstance(p, greenery.lego.mult) and p.multiplier.max == greenery.lego.inf \
-                        and p.multiplier.min.v is not None and p.multiplier.min.v >= 2:
+            p0, i = greenery.lego.pattern.match(key, 0)
+            assert i == len(key)
+            m0, m1 = p0.fsm(), greenery.lego.parse(key).fsm()
+            syms = sorted((set(m0.alphabet) | set(m1.alphabet)) - {None}) + [None]
+
+            def step(m, q, c):
+                tab = m.map[q]
+                return tab[c] if c in tab else tab[None]
+            seen, todo, r = {(m0.initial, m1.initial)}, [(m0.initial, m1.initial)], False
+            while todo and not r:
+                q0, q1 = todo.pop()
+                if (q0 in m0.finals) != (q1 in m1.finals):
                     r = True
-            if not r:
-                r = any(self.greenery_multiplier_bug(x) for x in tree[1:]
-                        if isinstance(x, list) and x and isinstance(x[0], str))
+                for c in syms:
+                    nx = (step(m0, q0, c), step(m1, q1, c))
+                    if nx not in seen:
+                        seen.add(nx)
+                        todo.append(nx)
             self.bug_cache[key] = r
         return r
 
@@ -386,7 +446,7 @@ class C11(Suite):
         regex_machine_correct (the fsm is not the expression's): their runs are compared with the model
         only, their lang/spec cases are dropped (two listed probes keep the finding visible)."""
         for c in self.raw_cases(tier, rng):
-            if "rx" in c and not c.get("probe") and self.greenery_multiplier_bug(c["rx"]):
+            if "rx" in c and not c.get("probe") and self.greenery_reduce_bug(c["rx"]):
                 if c["op"] != "run":
                     continue
                 c["corr_only"] = 1
@@ -398,23 +458,28 @@ class C11(Suite):
         k = 0
         # ---- 1. exhaustive small scope over {a,b}
         cache = {}
-        maxsize, maxlen = (3, 4) if quick else (4, 6)
+        maxsize, maxlen = (3, 4) if quick else (4, 5)
         trees = []
         for n in range(1, maxsize + 1):
             trees += exprs_of_size(LEAVES_AB, UNARY, cache, n)
         if not quick:
             five = exprs_of_size(LEAVES_AB + [["eps"]], UNARY, {}, 5)
-            trees += rng.sample(five, 2500)
+            trees += rng.sample(five, 1000)
         words = list(strings_upto([A, B], maxlen))
         short = list(strings_upto([A, B], 4))
+        longer = [w for w in strings_upto([A, B], 6) if len(w) == 6]
         for ti, tree in enumerate(trees):
             yield {"op": "lang", "rx": tree, "bound": 5 if quick else 6}
-            ws = words if (quick or ti < 4500 and rx_size(tree) <= 4) else short
+            if quick or rx_size(tree) <= 3:
+                ws = words if quick else words + longer   # thorough: all strings up to length 6
+            else:
+                # larger expressions: all strings up to length 4 and a seeded sample of the longer ones
+                ws = short + rng.sample(words[31:] + longer, 14)
             for w in ws:
                 for ww in (w, w + [C]):
                     k += 1
                     yield self.pair_cases(tree, ww, k)
-                    if k % 3 == 0:
+                    if k % (3 if quick else 5) == 0:
                         yield {"op": "spec", "rx": tree, "w": ww}
         # ---- 2. one named multi-byte symbol (é: 2 bytes, €: 3 bytes); texts over {a, b, that symbol} lie inside
         #         the hypothesis of the byte-machine clause; texts that also use the *other* multi-byte
@@ -426,8 +491,8 @@ class C11(Suite):
             for n in range(1, 4):
                 mtrees += exprs_of_size(leaves, UNARY, cache, n)
             if not quick:
-                mtrees += rng.sample(exprs_of_size(leaves, UNARY, cache, 4), 600)
-            texts = list(strings_upto([A, B, mb], 3 if quick else 5))
+                mtrees += rng.sample(exprs_of_size(leaves, UNARY, cache, 4), 400)
+            texts = list(strings_upto([A, B, mb], 3 if quick else 4))
             outside = [t for t in strings_upto([A, mb, other], 3 if quick else 4) if other in t]
             for ti, tree in enumerate(mtrees):
                 named = rx_syms(tree)
@@ -450,11 +515,39 @@ class C11(Suite):
                         c["t"] = t
                         c["corr_only"] = 1
                         yield c
+        # ---- 2a. two named multi-byte symbols: refused by the real code (an assertion); were such a machine
+        #          built, the edges of the second symbol would hang off the first symbol's extra states
+        cache = {}
+        for n in range(1, 4):
+            for tree in exprs_of_size([["lit", E_ACUTE], ["lit", EURO], ["dot"]], UNARY[:4], cache, n):
+                if rx_syms(tree) != {E_ACUTE, EURO}:
+                    continue
+                for t in strings_upto([E_ACUTE, EURO, A], 2):
+                    k += 1
+                    c = self.pair_cases(tree, [b for ch in t for b in utf8(ch)], k, text=t)
+                    c["t"] = t
+                    yield c
+        # ---- 2b. hand-written shapes beyond the size bound (the repo's own test expressions, and states the
+        #          small scope cannot produce: a non-initial non-final state whose named symbols all loop while
+        #          anything-else leaves; nested groups; digits), each with its sentences cut, extended and spoilt
+        for tree in self.shapes():
+            yield {"op": "lang", "rx": tree, "bound": 4}
+            seen = set()
+            for _ in range(30 if quick else 120):
+                w = self.random_word(rng, tree)
+                for ww in (w, w[:len(w) // 2], w + [ord("z")], w + w[:1]):
+                    if tuple(ww) in seen:
+                        continue
+                    seen.add(tuple(ww))
+                    k += 1
+                    yield self.pair_cases(tree, ww, k)
+                    if k % 3 == 0:
+                        yield {"op": "spec", "rx": tree, "w": ww}
         # ---- 3. probes outside the hypothesis (unnamed characters sharing lead bytes with the named one)
         for c in self.probes():
             yield c
         # ---- 4. seeded random: larger expressions, longer inputs, raw bytes, non-sentences, empty chunks
-        nrand = 1500 if quick else 40000
+        nrand = 1500 if quick else 12000
         for _ in range(nrand):
             k += 1
             tree = self.random_tree(rng, rng.randint(3, 9), [A, B, C, ord("0"), ord(",")])
@@ -478,6 +571,32 @@ class C11(Suite):
             t = [rng.choice([0, 0x41, 0x7F, 0x80, 0xE9, 0x7FF, 0x800, 0x20AC, 0xFFFF, 0x10000, 0x10FFFF,
                              rng.randint(0, 0xD7FF), rng.randint(0xE000, 0x10FFFF)]) for _ in range(rng.randint(0, 5))]
             yield {"op": "utf8", "t": t}
+
+    @staticmethod
+    def shapes():
+        L = lambda ch: ["lit", ord(ch)]
+        cat = lambda *xs: xs[0] if len(xs) == 1 else ["cat", xs[0], cat(*xs[1:])]
+        alt = lambda *xs: xs[0] if len(xs) == 1 else ["alt", xs[0], alt(*xs[1:])]
+        digits = ["cls", [ord(c) for c in "0123456789"]]
+        abp = cat(L("a"), ["plus", L("b")])
+        return [
+            cat(["star", L("a")], L("b"), ["star", ["dot"]], L("x")),                    # a*b.*x      (test_regex)
+            ["star", ["ncls", [ord("x"), ord("y"), ord("z")]]],                          # [^xyz]*
+            cat(abp, ["star", cat(L(","), ["star", L(" ")], abp)]),                      # (ab+)((,[ ]*)(ab+))*
+            cat(L("a"), ["star", cat(L("b"), L("b"))]),                                  # a(bb)*      (test_limit)
+            ["plus", digits],                                                            # \d+        (integer)
+            cat(["star", ["dot"]], L("\n")),                                            # .*\n       (string_base default)
+            cat(["plus", L("a")], ["ncls", [A]]),                                        # a+[^a]
+            cat(["dot"], ["star", L("a")], ["ncls", [A]]),                               # .a*[^a]
+            cat(["ncls", [A]], ["star", L("a")], ["ncls", [A]], ["opt", L("a")]),        # [^a]a*[^a]a?
+            cat(["plus", ["cls", [A, B]]], ["ncls", [A, B]], ["plus", L("a")]),          # [ab]+[^ab]a+
+            ["star", alt(cat(L("a"), L("b")), cat(L("b"), ["opt", L("a")]), L("c"))],    # (ab|ba?|c)*
+            cat(["rep", 2, 3, alt(L("a"), cat(L("b"), L("c")))], ["dot"]),               # (a|bc){2,3}.
+            cat(["opt", L("-")], ["plus", digits], ["opt", cat(L("."), ["plus", digits])]),   # -?\d+(.\d+)?
+            cat(["star", ["ncls", [ord('"')]]], L('"')),                                 # [^"]*"
+            ["star", cat(["ncls", [A]], ["ncls", [B]])],                                 # ([^a][^b])*
+            alt(cat(L("a"), L("b"), L("c")), cat(L("a"), L("b")), L("a")),               # abc|ab|a
+        ]
 
     def probes(self):
         out = []
@@ -518,8 +637,34 @@ class C11(Suite):
     def random_tree(self, rng, size, alpha):
         while True:
             t = self.random_tree1(rng, size, alpha)
-            if rx_expanded(t) <= 20:
+            if rx_expanded(t) <= 20 and rx_fanout(t) <= 8 and self.greenery_in_time(t):
                 return t
+
+    def greenery_in_time(self, tree, limit=2.0):
+        """safety net for the random expressions: greenery needs exponential time on a few shapes; an
+        expression whose fsm is not built within the limit is not used (counted in `self.skipped_slow`)"""
+        import signal
+
+        class Slow(Exception):
+            pass
+
+        def on_alarm(*_a):
+            raise Slow()
+        try:
+            old = signal.signal(signal.SIGALRM, on_alarm)
+        except ValueError:          # not in the main thread: no guard
+            return True
+        signal.setitimer(signal.ITIMER_REAL, limit)
+        try:
+            self.fsm_text(tree)
+            self.greenery_reduce_bug(tree)
+            return True
+        except Slow:
+            self.skipped_slow += 1
+            return False
+        finally:
+            signal.setitimer(signal.ITIMER_REAL, 0)
+            signal.signal(signal.SIGALRM, old)
 
     def random_tree1(self, rng, size, alpha):
         if size <= 1:
@@ -554,7 +699,7 @@ class C11(Suite):
             if k == "cls":
                 return [rng.choice(t[1])]
             if k == "ncls":
-                return [rng.choice([c for c in [A, B, C, ord("0"), ord(","), ord("z")] if c not in t[1]] or [ord("z")])]
+                return [rng.choice([c for c in [A, B, C, ord("0"), ord(","), ord("z"), ord(" ")] if c not in t[1]] or [ord("~")])]
             if k == "alt":
                 return gen(rng.choice(t[1:3]), depth + 1)
             if k == "cat":
